@@ -42,7 +42,7 @@ prop('C03', units=['bk'], level='proof',
      not_covered=['identity is proved in exact arithmetic; accumulated Decimal rounding is not modelled'],
      witnesses=[])
 
-prop('C04', units=['bk'], level='proof',
+prop('C04', units=['bk', 'agg'], level='proof',
      technique='Verus: type invariant of ConstrainedDecimal (>= 0), sum invariant wf() of the affiliate status table, delta_for_tx Err <==> step_reject, prefix invariant of the driver; witnesses for message visibility',
      level_text='Deductive proof (Verus) of non-negativity, all-affiliate total = sum, registered => no cost base/gain, rejection iff impossible (model E), correct prefix before an error. Visibility of the message in every output mode is outside contracts and only watched by CLI witnesses.',
      level_note=BK_NOTE + ' D13 (rounded split factor) is invisible to model E and guarded by its witness only.',
@@ -50,14 +50,14 @@ prop('C04', units=['bk'], level='proof',
                   'application-level "error stays per security" (D15, witness; see C08)'],
      witnesses=['D5', 'D13', 'D15'])
 
-prop('C15', units=['bk'], level='proof',
+prop('C15', units=['bk', 'ord'], level='proof',
      technique='Verus: split arm of delta_for_tx + per-affiliate split factors in both window scans (code contracts); lemma_step_scales / lemma_ratio_scale_invariant (a step commutes with restating quantities in another split period)',
      level_text='Deductive proof (Verus) of the step-level statement for all five row kinds and of the ratio invariance; the whole-history induction (fold commutation) is not mechanised.',
      level_note=BK_NOTE,
-     not_covered=['whole-history induction over the fold', 'rounded split factors (model E)', 'global-vs-per-affiliate split expansion (unit ord, added when ported)'],
+     not_covered=['whole-history induction over the fold', 'rounded split factors (model E)', 'acceptance of rounded factors'],
      witnesses=['D13'])
 
-prop('C16', units=['bk'], level='proof',
+prop('C16', units=['bk', 'ord'], level='proof',
      technique='Verus: AffiliatePortfolioSecurityStatuses::new view postcondition + lemma_opening_equiv (opening status == state after an opening Buy) + ledger fold from init_stv',
      level_text='Deductive proof (Verus) that the ledger started from an opening status equals the ledger after the corresponding Default-affiliate purchase (state equality, then the same fold).',
      level_note=BK_NOTE,
@@ -70,3 +70,81 @@ prop('C17', units=['costs'], level='proof',
      level_note=BK_NOTE + ' deltas_ok at the call site in run_acb_app_to_render_model is assumed (concatenation of per-security ledgers). hole_date_keys (keys().map().collect()) is an assumed std paraphrase with arbitrary order.',
      not_covered=['render_total_costs string assembly', 'Costs::sorted_years (rendering helper)', 'listing of ignored transactions as notes (strings)'],
      witnesses=['D1', 'D2b'])
+
+
+ALL_UNITS = ['bk', 'agg', 'ord', 'costs', 'summary', 'fx', 'conv', 'pdf']
+
+prop('C05', units=ALL_UNITS, level='proof',
+     technique='Verus: every unwrap/expect/assert!/panic!/index/slice/division and every loop (decreases) inside the extracted functions is a discharged obligation (run-time assertions are shadowed by rt_assert(requires cond))',
+     level_text='Deductive proof (Verus), limited to the extracted core (bookkeeping, gains aggregation, splits, costs, summary range/simple summary, rate loader + tx_loader, FxTracker/BrokerTx order, pdf page chunks and page iterator): no panic and termination for all inputs reaching these functions, in model E (Decimal overflow not modelled). The front ends (clap, csv, json, xlsx, pdf text, regex) are NOT covered.',
+     level_note=BK_NOTE + ' Vec lengths <= isize::MAX and get_num_pages < u32::MAX are assumed. Async functions are verified after removing async/.await (sequential awaits only).',
+     not_covered=['front ends and parsers (external crates, string code)', 'Decimal overflow for magnitudes beyond 7.9e28',
+                  'allocation failure', 'functions not extracted (listed in coverage.extraction log as dropped/assumed)'],
+     witnesses=['D6', 'D17'])
+
+prop('C06', units=['agg'], level='proof',
+     technique='Verus: calc_security_cumulative_capital_gains (total = sum of gains, per settlement-year sums), calc_cumulative_capital_gains (aggregate = sum over securities for any hash iteration order), sorted year keys',
+     level_text='Deductive proof (Verus) that every yearly figure and total is the sum of the rows/securities it summarises, independent of HashMap iteration order. The display-rounding clause is string code and not covered.',
+     level_note=BK_NOTE + ' hole_values / hole_year_keys paraphrase std iterator chains (arbitrary order) and are assumed.',
+     not_covered=['rounding half away from zero to cents in rendered strings (dollar_precision_str, render.rs)', 'footer string assembly'],
+     witnesses=[])
+
+prop('C07', units=['ord', 'bk'], level='proof',
+     technique='Verus: impl Ord/PartialOrd for Tx and CsvTx == (settlement date, read index); split_txs_by_security == order-preserving filter per security',
+     level_text='Deductive proof (Verus) of the ordering key and of the stable per-security partition. Header handling, column permutation and read-index assignment live in csv-crate/string code and are not covered.',
+     level_note=BK_NOTE + ' std slice::sort is assumed stable and correct w.r.t. cmp_spec; parse_tx_csv read indices are assumed.',
+     not_covered=['header case/padding/unknown columns (parse_tx_csv)', 'global_read_index accumulation in the async I/O driver'],
+     witnesses=[])
+
+prop('C08', units=['ord', 'agg', 'bk'], level='proof',
+     technique='Verus: split_txs_by_security (map[s] == filter(all, s)), get_cumulative_capital_gains (table = exactly the accepted ledgers; aggregate = sum over that table), ledger contract mentions one security only',
+     level_text='Deductive proof (Verus) that the per-security input is the stable filter of the rows, that a failing security is absent from the gains table and the aggregate sums exactly the accepted ones. The driver loop of run_acb_app_to_delta_models (async I/O) is watched by witness D15 only.',
+     level_note=BK_NOTE,
+     not_covered=['run_acb_app_to_delta_models driver loop (by-value HashMap loop inside async I/O code)'],
+     witnesses=['D15'])
+
+prop('C09', units=['ord', 'costs', 'agg'], level='proof',
+     technique='Verus with hash iteration modelled as an arbitrary permutation: expand(global splits) is a function of the input (unique id-sorted enumeration), yearly max day = earliest best day, aggregate sums order-independent, sorted key lists',
+     level_text='Deductive proof (Verus): each function that turns a hash container into ordered output satisfies a seed-free postcondition, so no result depends on iteration order. Byte-level output of tabled/csv and the render loop order are watched by witnesses only.',
+     level_note=BK_NOTE + ' iteration order of std hash containers is unspecified in every assumed iterator contract.',
+     not_covered=['bytes produced by tabled / csv writers', 'order of securities in run_acb_app_to_render_model (witness D2c)',
+                  'SfLA affiliate order in get_delta_superficial_loss_info (sort_affs hole states permutation only)'],
+     witnesses=['D2a', 'D2b', 'D2c'])
+
+prop('C10', units=['summary', 'bk'], level='proof',
+     technique='Verus: necessary conditions only - get_summary_range_delta_indicies (window of every later loss sale lies strictly after the last summarised settlement), make_simple_summary_txs (Buy reproduces balance and cost base); round trip watched by witnesses',
+     level_text='Deductive proof (Verus) of two necessary conditions of the round trip, for all delta lists and dates. The round trip itself (two runs of the whole pipeline) is not expressible as a function contract; annual-gains mode is not verified and has the known finding D16.',
+     level_note=BK_NOTE + ' sorted_by_settle(deltas) at the call is assumed.',
+     not_covered=['equality of all later figures (whole-pipeline statement)', 'make_summary_txs, annual-gains variant, aggregate summary'],
+     witnesses=['D3', 'D16'])
+
+prop('C12', units=['fx', 'bk'], level='proof',
+     technique='Verus: get_effective_usd_cad_rate == oracle (rate of the day, else most recent published day within 7 before; never later/zero/older; Err for today-or-later without rate); load_rate_if_needed / load_tx_rates (explicit rate wins, CAD needs none, non-USD Err, keyed on trade date, frame); Tx::try_from currency/rate rules',
+     level_text='Deductive proof (Verus) against an oracle of published rates, for all dates within years 0..=9998 and all cache states; row completion proved with a whole-row frame.',
+     level_note=BK_NOTE + ' RemoteRateLoader returns exactly what was published (HTTP/JSON not verified); three calendar axioms about time::Date; async removed.',
+     not_covered=['JSON parsing and inversion of daily observations', 'BC dates / year 9999 saturation corner'],
+     witnesses=[])
+
+prop('C13', units=['fx'], level='proof',
+     technique='Verus: RateLoader invariant (every year in memory has correct entries; a year downloaded in this run is in memory and complete) => every look-up equals the cache-free answer; at most one download per year per run',
+     level_text='Deductive proof (Verus) for any sequence of look-ups and any cache content an earlier run can have left behind (list_ok_asof).',
+     level_note=BK_NOTE + ' RatesCache trait contract (returns what an earlier run wrote) and RemoteRateLoader contract are assumed; cache file I/O not verified.',
+     not_covered=['CsvRatesCache file reading/writing'],
+     witnesses=['D4'])
+
+prop('C17_', units=[])
+del PROPS['C17_']
+
+prop('C18', units=['conv'], level='proof',
+     technique='Verus: all of FxTracker (implied rate, signed shares == cash amount, implicit conversion amount, pairing errors, unpaired row => Err) and impl Ord for BrokerTx == (settlement date, timestamp, tiebreak class, tiebreak, row)',
+     level_text='Deductive proof (Verus) for the FX-tracking and ordering layer of the Questrade converter. Sheet reading (office crate, header map) is outside; blank-header independence is watched by witness D7.',
+     level_note=BK_NOTE + ' String::cmp is an uninterpreted total order; the ".FX" symbol concatenation is a hole.',
+     not_covered=['sheet_to_txs / SheetReader / read_sheet_header', 'sum over a whole sheet of signed shares == net cash flow'],
+     witnesses=['D7', 'D17'])
+
+prop('C20', units=['pdf'], level='proof',
+     technique='Verus: safe_page_chunks_with_remainder_pn (every page 1..=n in some group, none out of range, no empty group) and OptimizedPageIter::next (never requests an unloaded / non-existent page, no unwrap/index failure)',
+     level_text='Deductive proof (Verus) of the page-order half of the property for all hint lists and page counts. The FMV regex state machine ("each holding once") is not covered.',
+     level_note='load_pages (pdf text extraction) and get_num_pages < u32::MAX are assumed; Iterator::next is verified as an inherent method (rule R23); hole_missing_pages / hole_to_deque paraphrase std iterator chains.',
+     not_covered=['FmvParseSm regex state machine', 'pdf text extraction'],
+     witnesses=[])
